@@ -75,6 +75,48 @@ theorem bind_core {s t : State} (h : s.core = t.core) (k : Key) (v : Val) (l1 l2
       subst h1 h2 h4 h5 h6 h7 h8 h10 h11 h12 h13
       simp
 
+theorem core_interactive {s t : State} (h : s.core = t.core) : s.interactive = t.interactive := by
+  have : s.core.interactive = t.core.interactive := by rw [h]
+  exact this
+
+/-- a registration on two states with the same core: same verdict, same resulting core -/
+theorem register_core {s t : State} (h : s.core = t.core) (r : State.RegReq) :
+    (match s.register r, t.register r with
+     | .ok s', .ok t' => s'.core = t'.core
+     | .error e1, .error e2 => e1 = e2
+     | _, _ => False) := by
+  obtain ⟨hr, _, hl, _⟩ := core_fields h
+  have hi := core_interactive h
+  have hchk : s.regCheck r = t.regCheck r := by
+    unfold State.regCheck State.clashes
+    rw [hr, hl, hi]
+  unfold State.register
+  rw [hchk, hr]
+  cases t.regCheck r with
+  | some e => simp
+  | none =>
+    simp only
+    cases s; cases t
+    simp only [State.core, State.mk.injEq] at h ⊢
+    obtain ⟨h1, h2, -, h4, h5, h6, h7, h8, -, h10, h11, h12, h13⟩ := h
+    subst h1 h2 h4 h5 h6 h7 h8 h10 h11 h12 h13
+    simp
+
+theorem registerAll_core {s t : State} (h : s.core = t.core) (regs : List State.RegReq) :
+    (registerAll s regs).1.core = (registerAll t regs).1.core ∧
+    (registerAll s regs).2 = (registerAll t regs).2 := by
+  induction regs generalizing s t with
+  | nil => exact ⟨h, rfl⟩
+  | cons r rest ih =>
+    simp only [registerAll]
+    have hc := register_core h r
+    revert hc
+    cases s.register r <;> cases t.register r <;> simp only
+    · intro he; subst he; exact ⟨h, rfl⟩
+    · intro hf; exact hf.elim
+    · intro hf; exact hf.elim
+    · intro hc; exact ih hc
+
 end Gin
 
 namespace Gin
@@ -159,10 +201,17 @@ theorem applyStmt_congr (s1 s2 : State) (h : s1.core = s2.core) (f1 f2 : Option 
     · simp [hsk, sameOutcome, h]
     · simp only [hsk, Bool.false_eq_true, if_false]
       cases s2.registry.getMatch sel <;> simp [sameOutcome, h, withLoc_err]
-  | imp m found line =>
+  | imp m found line regs =>
     simp only [applyStmt]
     by_cases hf : found = true
-    · simp [hf, sameOutcome, h]
+    · simp only [hf, if_true]
+      obtain ⟨hcore, herr⟩ := registerAll_core h regs
+      rcases h1 : registerAll s1 regs with ⟨a1, e1⟩
+      rcases h2 : registerAll s2 regs with ⟨a2, e2⟩
+      rw [h1, h2] at hcore herr
+      simp only at hcore herr
+      subst herr
+      cases e1 <;> simp [sameOutcome, hcore, withLoc_err]
     · simp only [hf, Bool.false_eq_true, if_false]
       by_cases ht : skip.truthy = true <;> simp [ht, sameOutcome, h, withLoc_err]
   | incl name file line =>
@@ -203,8 +252,8 @@ mutual
       have hfl : flatten [Stmt.block scope sel line] = [Stmt.block scope sel line] := by simp [flatten]
       rw [hfl, (applyStmts_single _ _ _ _).1, (applyStmts_single _ _ _ _).2]
       exact applyStmt_congr s1 s2 h f1 f2 skip _ (by intro n b l e; cases e)
-    | imp m found line =>
-      have hfl : flatten [Stmt.imp m found line] = [Stmt.imp m found line] := by simp [flatten]
+    | imp m found line regs =>
+      have hfl : flatten [Stmt.imp m found line regs] = [Stmt.imp m found line regs] := by simp [flatten]
       rw [hfl, (applyStmts_single _ _ _ _).1, (applyStmts_single _ _ _ _).2]
       exact applyStmt_congr s1 s2 h f1 f2 skip _ (by intro n b l e; cases e)
     | syntaxErr l =>
